@@ -120,10 +120,11 @@ def run(tier):
     ]
     V.build_harness("c13")
     nh, steps = (8, 50) if tier == "quick" else (36, 100)
-    profiles = [4, 0, 2, 3]          # 4 = tiny epochs: uncle candidates meet the next epoch's templates
+    # 4 = tiny epochs: uncle candidates meet the next epoch's templates; 5 / 6 = tight cycle / byte (and proposal) limits with a backlog
+    profiles = [4, 5, 0, 2, 3, 6, 4, 0] if tier == "quick" else [4, 5, 0, 6, 2, 3]
     with cf.ThreadPoolExecutor(max_workers=1) as bg:
         fut = bg.submit(phase_mc, c, tier)
-        seeds = [(V.seed() * 1000 + i, steps, profiles[i % 4], i) for i in range(nh)]
+        seeds = [(V.seed() * 1000 + i, steps, profiles[i % len(profiles)], i) for i in range(nh)]
         with cf.ThreadPoolExecutor(max_workers=6) as ex:
             docs = list(ex.map(lambda a: run_random(*a), seeds))
         judged = 0
@@ -131,7 +132,8 @@ def run(tier):
             results = list(ex.map(lambda x: validate(c, "random_%d" % x[0], x[1], {"source": "random", "args": x[1]["summary"]}), list(enumerate(docs))))
         tot = {"templates": 0, "judged_ok": 0, "with_commits": 0, "with_uncles": 0, "before_pool_sync": 0, "settled": 0, "on_stale_parent": 0,
                "max_commits": 0, "reorgs": 0, "histories": len(docs),
-               "with_uncle_candidates_right_after_epoch_boundary": 0, "uncles_included_after_boundary": 0}
+               "with_uncle_candidates_right_after_epoch_boundary": 0, "uncles_included_after_boundary": 0,
+               "at_cycle_limit": 0, "at_byte_limit": 0, "at_proposal_limit": 0, "at_byte_limit_with_uncles": 0}
         for (ok, nev), d in zip(results, docs):
             # the named vacuity case is about what the histories produced, whether or not a violation cut them short
             tot["with_uncle_candidates_right_after_epoch_boundary"] += sum(1 for e in d["events"] if e["ev"] == "Template" and e.get("boundary"))
@@ -151,6 +153,11 @@ def run(tier):
                 tot["on_stale_parent"] += (e["parent"] != tips and e["parent"] != "genesis")
                 tot["max_commits"] = max(tot["max_commits"], len(e["txs"]))
                 tot["uncles_included_after_boundary"] += bool(e.get("boundary")) and e.get("uncles", 0) > 0
+                # named case: the template is FULL - one more (smallest) transaction / proposal would break a consensus limit
+                tot["at_cycle_limit"] += bool(e["txs"]) and e["cycles"] + 537 > e["maxCycles"]
+                tot["at_byte_limit"] += bool(e["txs"]) and e["bytes"] + 230 > e["maxBytes"]
+                tot["at_byte_limit_with_uncles"] += bool(e["txs"]) and e["bytes"] + 230 > e["maxBytes"] and e.get("uncles", 0) > 0
+                tot["at_proposal_limit"] += len(e["props"]) == e["maxProps"]
                 c.case({"h": d["summary"]["seed"], "parent": e["parent"], "txs": e["txs"], "props": e["props"], "m": e["moment"]},
                        bool(e["txs"]) or e.get("uncles", 0) > 0 or e["moment"] != "after-operation")
             tot["reorgs"] += d["summary"]["reorgs"]
@@ -164,6 +171,9 @@ def run(tier):
     # named vacuity case: "template with uncle candidates right after an epoch boundary"
     if tot["with_uncle_candidates_right_after_epoch_boundary"] < 3:
         raise V.ToolError("vacuous: no template was taken with uncle candidates of the previous epoch alive: %s" % tot)
+    # named vacuity case: "template filled up to a consensus limit while the pool holds more"
+    if tot["at_cycle_limit"] < 2 or tot["at_proposal_limit"] < 2 or tot["at_byte_limit"] < 1:
+        raise V.ToolError("vacuous: no template was taken at the cycle / proposal / byte limit: %s" % tot)
     for d in docs[:2]:
         for e in d["events"]:
             if e["ev"] == "Template" and e["txs"]:
